@@ -86,6 +86,21 @@ class RGen:
         rng = self.rng
         cfg = dict(pause=0, retain=4, mode='real', q=400, slack=300, T=100_000, group=group)
         st = []
+        if mode == 'blocked':
+            # the consumer becomes ready while the receive worker is held up behind a Send's pause (it is handling a
+            # busy / lost indication): telegrams accepted before must still come out before telegrams accepted after
+            cfg['pause'] = rng.choice([2000, 4000])
+            for _ in range(max(4, size // 3)):
+                k = rng.randrange(1, 4)
+                st.append(S('burst', n=k, p=self.newpid(k)))             # nobody reads: kept aside
+                st.append(S('send', g=1, p=self.newpid()))               # the sender holds the send mutex for the pause
+                st.append(S('busy', n=0, i=0) if rng.random() < 0.6 else S('lost', n=1))   # worker now waits for the mutex
+                st.append(S('ind', p=self.newpid()))                     # already queued on the socket behind it
+                st.append(S('reader', act='on'))                         # the consumer becomes ready meanwhile
+                st.append(S('adv', d=cfg['pause'] * 3 + 2000))
+                st.append(S('reader', act='off'))
+            st.append(S('drain'))
+            return dict(run=run, cfg=cfg, steps=st, tag='rburst-' + mode)
         if mode == 'ready':
             st.append(S('reader', act='on'))
         left = size
